@@ -126,13 +126,16 @@ def run():
     # derived structures: values built by a conversion from keys / elements of every kind, handed on to consumers that take them apart
     keys = ["'a", "'a.bear", '"x".bear({y: 1})', "Str", "Int", "1", "nil", "[1]", "{}", "Obj", 'Str.bear.new("s")', "Int.bear.new(3)", "'_p", '"a b"', '""', "1.5", "true", "{|x| x}", "(1:2)", "_"]
     builders = ["[[{k}, 1]].O", "[[{k}, 1]].M", "[[{k}, 1], [{k}, 2]].O", "%{{{k}: 1}}.O", "%{{{k}: 1}}", "{{a: {k}}}", "[{k}, {k}]", "[[{k}]]", "[[{k}, 1, 2]].O", "[{k}].O", "[{k}].M", "{{^{k}: 1}}",
-                "[[1, {k}]].M.O", "{{a: 1}}.bear({{b: {k}}})", "[{k}].try", "({k}:{k})", "{k}.try"]
+                "[[1, {k}]].M.O", "{{a: 1}}.bear({{b: {k}}})", "[{k}].try", "({k}:{k})", "{k}.try",
+                "[[{k}, 1], [{k}, 2]].M", "[[{k}, 1], [2, 2], [{k}, 3]].M", "[{k}, 1, {k}].keyBy {{|e| e}}", "[{k}, {k}]@(%{{}}){{|e| [e, 1]}}", "[{k}, {k}]@({{}}){{|e| [e, 1]}}",
+                "%{{{k}: 1, **[[{k}, 2]].M}}", "[[{k}, 1]].M.bear({{}})"]
     consumers = ["{{|a: 0| a}}(**{d})", "{{|x, a: 0, y: 1| [x, a, y, \\_]}}(1, **{d})", "{{m: m{{|a: 0| a}}}}.m(**{d})", "<{{|a: 0| yield a}}>.new(**{d}).next", "{{**{d}}}", "%{{**{d}}}",
                  "{{a: 5, **{d}}}.a", "{d}.keys", "{d}.items", "{d}.values", "{d}.S", "{d}.repr", "{d} == {d}", "{d}.bear({{}})", "{d}['a]", "{d}.a", "{d}.which('a)", "JSON.enc({d})",
                  "{d}@{{|k, v| [k, v]}}", "{d}.A", "{d}.O", "{d}.M", "[*{d}]", "{{|x| \\0}}(*{d})", "{d}.len", "{d}$([]){{|acc, e| [*acc, e]}}", "{d}.keys(private?: true)", "{d}.try.keys.A",
-                 "\"#{{{d}}}\"", "{d}.bear({{}}).bear.keys", "%{{{d}: 1}}[{d}]", "{d}.patch(a: 1)", "{d}.del('a)"]
+                 "\"#{{{d}}}\"", "{d}.bear({{}}).bear.keys", "%{{{d}: 1}}[{d}]", "{d}.patch(a: 1)", "{d}.del('a)",
+                 "{d}[[7]]", "{d}[{{zz: 1}}]", "{d}.p", "{d}.has?([7])", "[{d}].S", "{d} != %{{}}"]
     nb = len(keys) * len(builders)
-    ders = rng.sample(range(nb * len(consumers)), nb * len(consumers) if thorough else 6000)
+    ders = rng.sample(range(nb * len(consumers)), nb * len(consumers) if thorough else 9000)
     for x in ders:
         bi, ci = divmod(x, len(consumers))
         ki, bj = divmod(bi, len(builders))
